@@ -12,9 +12,10 @@ cd $HERE
 miss=0
 for d in seeded/$PAT/; do
   id=$(basename $d)
-  git -C $WT checkout -q -- . ; git -C $WT clean -fdq
+  git -C $WT reset -q --hard HEAD; git -C $WT clean -fdq
   if ! git -C $WT apply $PWD/$d/patch.diff 2>/dev/null; then
-    if ! git -C $WT apply --3way $PWD/$d/patch.diff 2>/dev/null; then echo "$id PATCH-DOES-NOT-APPLY"; continue; fi
+    git -C $WT reset -q --hard HEAD
+    if ! git -C $WT apply --3way $PWD/$d/patch.diff 2>/dev/null || git -C $WT diff --name-only --diff-filter=U | grep -q .; then git -C $WT reset -q --hard HEAD; echo "$id PATCH-DOES-NOT-APPLY"; continue; fi
   fi
   checks=$(jq -r '.caught_by[]' $d/meta.json | sed 's/(.*//' | sort -u)
   line="$id"
